@@ -86,7 +86,7 @@ def set_reducer(keep):
 
 def run(task, reducer, *, inplace=False, frozen=False, do_not_copy=False, initializing=False,
         attr_do_not_copy=None, deepcopy_mode="fresh", setattr_mode="event", loop_unroll=1,
-        extra_facts=None, configure=None, if_=True):
+        extra_facts=None, configure=None, if_=True, alias=False):
     kind = None
     if len(task) == 4:
         hid, shape, fam, kind = task
@@ -99,6 +99,9 @@ def run(task, reducer, *, inplace=False, frozen=False, do_not_copy=False, initia
         cfg.event_filter = reducer
         cfg.loop_unroll = loop_unroll
         cfg.guard_pred = lambda k: k[0] == "immutable"    # never merged away: rules rely on it
+        # an opaque callback may return (part of) its argument: on copy-on-write routes the library must not write into
+        # such a result without copying it (on in-place routes the caller asked for exactly that)
+        cfg.callback_may_alias = alias and not inplace
         set_family(cfg, ctx, fam)
         set_collection_kind(cfg, ctx, h.family, kind)
         if configure:
